@@ -1951,7 +1951,17 @@ fn generate_compile(rng: &mut Rng, hist: &mut Hist) -> String {
     let mut terms = vec!["a".to_string()];
     for _ in 0..(1 + rng.below(3)) {
         let (nm, f) = rng.pick(&names).clone();
-        terms.push(if f { format!("{}(a + {})", nm, rng.below(5)) } else { nm });
+        terms.push(if f {
+            if rng.chance(1, 15) {
+                // wrong number of arguments: the preprocessing error must come out of compile() in both placements
+                hist.add("compile:wrong-arity");
+                format!("{}(a, {})", nm, rng.below(5))
+            } else {
+                format!("{}(a + {})", nm, rng.below(5))
+            }
+        } else {
+            nm
+        });
     }
     format!("C12.compile\t{}\t{}\t{}", tgt, defs.join("|"), terms.join(" + "))
 }
